@@ -497,8 +497,11 @@ Boolean MACRO_Processor(PInputTag PInp, as_dynstr_t* p_dest) {
 
     /* before the first line, start a new local symbol space */
 
-    if ((PInp->LineZ == 1) && (!PInp->GlobalSymbols)) {
-        PushLocHandle(GetLocHandle());
+    if (PInp->LineZ == 1) {
+        if (!PInp->GlobalSymbols) {
+            PushLocHandle(GetLocHandle());
+        }
+        PInp->First = False;
     }
 
     /* signal the end of the macro */
@@ -768,9 +771,11 @@ static Boolean MACRO_GetPos(PInputTag PInp, char* dest, size_t DestSize) {
 }
 
 static void MACRO_Restorer(PInputTag PInp) {
-    /* discard the local symbol space */
+    /* discard the local symbol space - only if one was opened, i.e. at least
+       one line of the body has been delivered.  A construct with an empty body
+       never opened one and must not discard the enclosing expansion's space: */
 
-    if (!PInp->GlobalSymbols) {
+    if (!PInp->GlobalSymbols && !PInp->First) {
         PopLocHandle();
     }
 
